@@ -23,7 +23,7 @@ import (
 func init() {
 	ev.Register(&ev.Spec{
 		ID: "C18", Level: "exploration",
-		Rule:    "histories of same-type messages with shrinking and growing variable parts (name lists 200 -> 16 -> 2 -> 0 -> 5, strings 65535 -> 300 -> 1 -> 0 -> 40 bytes, payloads msize-bound -> 4096 -> 7 -> 0 -> 100) for Twalk, Twalkgetattr, Twrite, Tattach, Tsymlink, Tusymlink, Trenameat, Txattrwalk, Txattrcreate+Twrite, Tread, Treaddir, interleaved over 2-4 connections to one server (the message cache and buffer pools are process-wide / per connection), with rejected frames in between (objects abandoned mid-decode) and frames of 14 types that end before their fields do (nothing may be completed from bytes outside the frame: no backend call, no binding lost or made), reads of n then m < n bytes with a backend that fills only half of what it reports, repeated Tversion changing msize between reads; every backend-observed argument and every reply byte is compared with the reference decode/encode of that frame alone. Both tiers: up to 64 Treads in flight on one connection over files whose content is a function of (file, offset), most reads running into end of file ((n, io.EOF) from the backend), every reply compared byte for byte with what its own request must yield. Client side: 6 goroutines on one Client, every call answered Rlerror with an errno that is a function of its fid - each caller must get its own. Every connection of a round finally ends strictly inside the body of a last Twalk / Tsymlink frame (pipe and socket transports): that frame must not be executed with whatever the recycled decode buffer held. Thorough adds concurrent connections under the race detector. Non-trivial: the previous message of that type on any connection had a longer variable part; distinct by (type, previous length class, length class, connection switch).",
+		Rule:    "histories of same-type messages with shrinking and growing variable parts (name lists 200 -> 16 -> 2 -> 0 -> 5, strings 65535 -> 300 -> 1 -> 0 -> 40 bytes, payloads msize-bound -> 4096 -> 7 -> 0 -> 100) for Twalk, Twalkgetattr, Twrite, Tattach, Tsymlink, Tusymlink, Trenameat, Txattrwalk, Txattrcreate+Twrite, Tread, Treaddir, interleaved over 2-4 connections to one server (the message cache and buffer pools are process-wide / per connection), with rejected frames in between (objects abandoned mid-decode) and frames of 14 types that end before their fields do (nothing may be completed from bytes outside the frame: no backend call, no binding lost or made), reads of n then m < n bytes with a backend that fills only half of what it reports, repeated Tversion changing msize between reads; every backend-observed argument and every reply byte is compared with the reference decode/encode of that frame alone. Both tiers: up to 64 Treads in flight on one connection over files whose content is a function of (file, offset), most reads running into end of file ((n, io.EOF) from the backend), every reply compared byte for byte with what its own request must yield. Client side: 6 goroutines on one Client, every call answered Rlerror with an errno that is a function of its fid - each caller must get its own. Pipelined small writes: 16-64 Twrites of 1-60 bytes in one write on each of two connections, a yielding backend, stored bytes compared. Every connection of a round finally ends strictly inside the body of a last Twalk / Tsymlink frame (pipe and socket transports): that frame must not be executed with whatever the recycled decode buffer held. Thorough adds concurrent connections under the race detector. Non-trivial: the previous message of that type on any connection had a longer variable part; distinct by (type, previous length class, length class, connection switch).",
 		Assume:  []string{"recfs deep-copies arguments at call time", "a backend may leave part of the read buffer untouched: those bytes must be zero, not stale"},
 		Shards:  shards(8, 16),
 		Race:    raceIn("thorough"),
